@@ -36,7 +36,7 @@ def run(tier, out, model_ok, proof):
     models = special_models()
     for i in range(2500 if big else 350):
         models.append(treecorr.gen_structured(rng, with_macros=rng.random() < 0.35))
-    cases, exp = [], {}
+    cases, exp, enum_order = [], {}, {}
     nvar = 4 if big else 2
     for i, roots in enumerate(models):
         e = expected.expected(copy.deepcopy(roots))
@@ -54,6 +54,9 @@ def run(tier, out, model_ok, proof):
             cid = "m%d_%d" % (i, v)
             cases.append(treecorr.project_case(cid, files))
             exp[cid] = e
+            flat = treecorr_flat(roots)
+            if not any(n.text.startswith("MACRO") for n in flat):
+                enum_order[cid] = [n.text.split()[1] for n in flat if n.text.startswith("ENUM ")]
     if model_ok:
         res, crashes, mres, mism, skipped = catcorr.run_catalog(cases)
     else:
@@ -77,6 +80,12 @@ def run(tier, out, model_ok, proof):
         for i in p["inters"]:
             del i["_key"]
         d = docgen.json_diff(p, exp[cid])
+        # the userEnums section lists the ENUM directives in document order (models without macros: an
+        # ENUM inside a MACRO is registered where the macro is declared)
+        if not d and cid in enum_order:
+            got = list((docgen.norm_json(r["json"]).get("userEnums") or {}).keys()) if isinstance(r["json"], dict) else None
+            if got is not None and got != enum_order[cid]:
+                d = "userEnums: order %s, the document declares %s" % (got, enum_order[cid])
         if d:
             out.violations.append({"what": "the catalog differs from the model at %s (implementation vs expected)" % d, "class": "other", "input": show})
         else:
@@ -94,3 +103,11 @@ def run(tier, out, model_ok, proof):
         "exhaustive": False,
     })
     out.assumptions += ["schema structure is compared only as format/notation (schema content is the dependency's); PARTIAL proof, see Props/C02.v"]
+
+
+def treecorr_flat(nodes):
+    out = []
+    for n in nodes:
+        out.append(n)
+        out.extend(treecorr_flat(n.children))
+    return out
